@@ -2,10 +2,19 @@ import TempestVerif.Drv.Util
 import TempestVerif.Model.Dispatch
 import TempestVerif.Gen.Dispatch
 import TempestVerif.Model.Steps
+import TempestVerif.Model.LLEval
+import TempestVerif.Model.CallsRun
 /- line-protocol handlers of property C13.
    disp.how vec=<0|1> pool=<none|int:k|obj>     → direct | map | poolMap | error
    calls.run np=<n_particles> nw=<n_walkers> ops=<w | m:<steps>>;…   → <calls> <evaluated> | error
    steps.F nsteps=<n> nmax=<n> d=<n> iter=<n> acc=<f> ws=<f> s0=<f>   → <int(adaptive steps) as float bits> <converged 0|1>
+   disp.howV vec=<0|1> pool=<none|int:<k>|obj:<0|1>>   (k any integer)      → direct | map | newPool:<k> | objMap | error
+   ll.eval how=<direct|map|newPool:<k>|objMap> sched=<i,j,…|-> res=<r;r;…|-> vec=<tok,…|->
+        r = v:<tok> | s:<tok>:<tok,tok…> | s:<tok>: | b      (point i of the batch returns res[i]; `vec` = what the vectorised
+        likelihood returns)                   → ok logl=<toks> blobs=<none|single:<toks>|rows:<k>:<row|row…>> log=<indices> | error
+   wrap.call args=<none|tok,…|-> kwargs=<none|k~v,…|->                       → args=<…> kwargs=<…>
+   evlik hb=<0|1> n=<n_calls> w=<n_walkers> blobs=<0|1>                      → <n_calls'> <blobs handed on 0|1>
+   crun np=<n> nw=<n> start=<fresh|resume:<c>|resume:none> fuel=<n> ops=<w|m:<steps>;…|->   → <calls> <batch sizes> | error
 -/
 namespace Drv.C13
 open Drv Model.Dispatch
@@ -26,7 +35,118 @@ def parseOp? (s : String) : Option Op :=
 def callTable : CallTable :=
   ⟨Gen.Dispatch.warmupIncrement, Gen.Dispatch.warmupBatch, Gen.Dispatch.stepIncrement, Gen.Dispatch.stepBatch⟩
 
+open Model.LLEval Model.CallsRun in
+def parsePoolV? (s : String) : Option PoolV :=
+  match s.splitOn ":" with
+  | ["none"] => some .none
+  | ["obj", "0"] => some (.obj false)
+  | ["obj", "1"] => some (.obj true)
+  | ["int", k] => k.toInt?.map .int
+  | _ => none
+
+open Model.LLEval in
+def parseHowV? (s : String) : Option HowV :=
+  match s.splitOn ":" with
+  | ["direct"] => some .direct
+  | ["map"] => some .map
+  | ["objMap"] => some .objMap
+  | ["newPool", k] => k.toInt?.map .newPoolMap
+  | _ => none
+
+open Model.LLEval in
+def showHowV : Option HowV → String
+  | some .direct => "direct"
+  | some .map => "map"
+  | some (.newPoolMap k) => s!"newPool:{k}"
+  | some .objMap => "objMap"
+  | none => "error"
+
+def toks (s : String) : List String := if s.isEmpty || s == "-" then [] else s.splitOn ","
+
+open Model.LLEval in
+def parseRes? (s : String) : Option (Res String String) :=
+  match s.splitOn ":" with
+  | ["b"] => some .bad
+  | ["v", y] => some (.val y)
+  | ["s", y, bs] => some (.seq y (if bs.isEmpty then [] else bs.splitOn ","))
+  | _ => none
+
+open Model.LLEval in
+def showBlobs : Option (Blobs String) → String
+  | none => "none"
+  | some (.single col) => "single:" ++ showList id col
+  | some (.rows k r) => s!"rows:{k}:" ++ "|".intercalate (r.map (showList id))
+
+open Model.CallsRun in
+def parseIt? (s : String) : Option ItKind :=
+  match s.splitOn ":" with
+  | ["w"] => some .warm
+  | ["m", k] => k.toNat?.map .mcmc
+  | _ => none
+
+def runTable : Model.CallsRun.RunTable :=
+  ⟨callTable, Gen.Dispatch.nCallsInit, Gen.Dispatch.freshCalls, Gen.Dispatch.resumeDefault⟩
+
+open Model.LLEval Model.CallsRun in
+def handle2 (cmd : String) (args : List (String × String)) : Option String :=
+  match cmd with
+  | "disp.howV" =>
+    match (getArg args "vec").map (· == "1"), (getArg args "pool").bind parsePoolV? with
+    | some v, some p => some (showHowV (logLikeHowV Gen.Dispatch.logLike Gen.Dispatch.distribute v p))
+    | _, _ => some "bad-op"
+  | "ll.eval" =>
+    match (getArg args "how").bind parseHowV?, (getArg args "sched").bind parseNatList?,
+          (getArg args "res").bind (fun s => if s == "-" then some [] else (s.splitOn ";").mapM parseRes?),
+          (getArg args "vec").map toks with
+    | some how, some sched, some res, some vec =>
+      let xs := List.range res.length
+      let f : Nat → Res String String := fun i => match res[i]? with | some r => r | none => .bad
+      some (match logLike how sched f (fun _ => vec) xs with
+        | some o => s!"ok logl={showList id o.logl} blobs={showBlobs o.blobs} log={showList toString (logLikeLog how sched xs)}"
+        | none => "error")
+    | _, _, _, _ => some "bad-op"
+  | "wrap.call" =>
+    match getArg args "args", getArg args "kwargs" with
+    | some a, some k =>
+      let a' : Option (List String) := if a == "none" then none else some (toks a)
+      let k' : Option (List (String × String)) := if k == "none" then none else
+        some ((toks k).filterMap fun t => match t.splitOn "~" with | [x, y] => some (x, y) | _ => none)
+      let w := Wrapper.init (fun (_ : Unit) (as : List String) (ks : List (String × String)) => (as, ks)) a' k'
+      let (ra, rk) := w.call ()
+      some s!"args={showList id ra} kwargs={showList (fun p => p.1 ++ "~" ++ p.2) rk}"
+    | _, _ => some "bad-op"
+  | "evlik" =>
+    match (getArg args "hb").map (· == "1"), (getArg args "n").bind String.toNat?, (getArg args "w").bind String.toNat?,
+          (getArg args "blobs").map (· == "1") with
+    | some hb, some n, some w, some bl =>
+      let o : Out String String := ⟨["l"], if bl then some (.single ["b"]) else none⟩
+      some (match evaluateLikelihood hb (fun (_ : List Unit) => some o) [()] n w with
+        | some (_, b, n') => s!"{n'} {showBool b.isSome}"
+        | none => "error")
+    | _, _, _, _ => some "bad-op"
+  | "crun" =>
+    match (getArg args "np").bind String.toNat?, (getArg args "nw").bind String.toNat?, (getArg args "fuel").bind String.toNat?,
+          getArg args "start",
+          (getArg args "ops").bind fun s => if s == "-" then some [] else (s.splitOn ";").mapM parseIt? with
+    | some np, some nw, some fuel, some st, some ops =>
+      let start? : Option (Start (List ItKind)) := match st.splitOn ":" with
+        | ["fresh"] => some (.fresh ops)
+        | ["resume", "none"] => some (.resume ops none)
+        | ["resume", c] => c.toNat?.map fun c => .resume ops (some c)
+        | _ => none
+      match start? with
+      | none => some "bad-op"
+      | some start =>
+        some (match runSampling runTable (scripted np nw) (fun _ _ => some ()) np fuel (ops.length + 1) start with
+          | some r => s!"{r.calls} {showList toString (r.asked.map List.length)}"
+          | none => "error")
+    | _, _, _, _, _ => some "bad-op"
+  | _ => none
+
 def handle (cmd : String) (args : List (String × String)) : Option String :=
+  match handle2 cmd args with
+  | some r => some r
+  | none =>
   match cmd with
   | "disp.how" =>
     match (getArg args "vec").map (· == "1"), (getArg args "pool").bind parsePool? with
